@@ -4,6 +4,14 @@ import json, os
 ROOT = os.path.dirname(os.path.abspath(__file__))
 S = 'Engine S: symbolic execution of the clang-14 LLVM IR of the real translation unit (harness #includes the .cpp), z3 decides every assertion and every memory/UB obligation on every path'
 CLAIMED = {
+ 'C17': ('Bounded symbolic check of the manifest codec: base64 pair vs RFC 4648 for every byte string of the listed lengths; decode_manifest(encode_manifest(m)) == m (up to whole-second expiry, empty scheme -> transport) for manifests with symbolic contents and the listed shapes; refusal exactly at the representability limits of every counted list and length-prefixed string.',
+         'round-trip shapes and string lengths bounded as listed in the evidence; binary-layer jobs abstract base64 as the identity (discharged by the base64 jobs); std::map primitives modelled'),
+ 'C18': ('Bounded symbolic check that manifest decoding is total: base64 layer on every string of the listed lengths, URI prologue, and the binary decoder on arbitrary exact-size payloads of the listed lengths for every format version: no out-of-bounds access, no flagged-arithmetic overflow (expiry conversion included), only std::invalid_argument escapes.',
+         'payload lengths bounded as listed (header and the first bytes of every later section); longer payloads outside the bound'),
+ 'C31': ('Bounded symbolic check of the three filename sanitisers (CLI fetch lambda and Node::store_chunk block lifted from the current source, security::sanitize_filename_hint) on inputs whose bytes are all symbolic: no separator / control / reserved character, never . or .., at most 255 bytes.',
+         'inputs: optional directory prefix + 0..3 (quick) / 0..4 (thorough) symbolic bytes and 300-byte names with symbolic bytes at the 255-byte cut; filesystem::path::filename() is a POSIX model (validated against libstdc++ on every native replay); the surrounding main()/store_chunk code is not encoded'),
+ 'C38': ('Bounded symbolic check of parse_update_metadata: JSON string decoding (raw bytes, escapes, \\uXXXX, surrogate pairs with symbolic digits) against an RFC 8259 reference decoder; totality and memory safety on every byte string up to 4 (quick) / 5 (thorough) bytes plus longer buffers with a fixed first byte; recursion depth bounded for 3000 nested openers.',
+         'string shapes and input lengths bounded as listed in the evidence; lone surrogates outside the claim; strtod modelled'),
  'C01': ('Bounded symbolic check of the real ChunkStore: every operation sequence of length 3 (quick) / 4 (thorough) over put / get / get_record / sweep_expired / snapshot starting with a store, two chunk ids, symbolic TTLs, payload bytes and clock; a deadline oracle decides every lookup including lookups exactly at the deadline, overwrite replaces bytes and deadline, sweep removes exactly the expired chunks.',
          'event times on a 1/8 s grid (order-isomorphic to any real schedule of <= 8 events), TTL -8..247 s, persistence off; Node-level fetch/peer-request/listing paths (which call ChunkStore) are not encoded'),
  'C06': ('Bounded symbolic check of the real KademliaTable provider table: every operation sequence (announce / lookup / sweep / withdraw) of the listed length starting with an announcement over 2-3 peers and 1-2 chunks with symbolic TTLs, addresses and clock, closed by a lookup of every chunk; lookups return exactly the live non-withdrawn providers with their latest expiry/address; cap of 20 keeps those expiring last (symbolic 21st lifetime).',
